@@ -39,7 +39,7 @@ def asmInsert (s : Asm) (off len alloc : String) (obs : Option String) : Asm × 
       | (_, .invalid) => (s, "invalid-choice")
   | _, _, _ => (s, "bad-op")
 
-def asmRead (s : Asm) (max m : String) (obs : Option (Obs × RS)) : Asm × String :=
+def asmRead (s : Asm) (max m : String) (obs : Option Obs) : Asm × String :=
   match u64? max, parseMode m with
   | some max, some ordered =>
     match Assembler.ensureOrdering s ordered with
@@ -47,8 +47,8 @@ def asmRead (s : Asm) (max m : String) (obs : Option (Obs × RS)) : Asm × Strin
     | (s1, true) =>
       match obs with
       | none => (s1, "invalid-choice")       -- the implementation reported an error or a panic
-      | some (o, c) =>
-        match Assembler.read s1 max ordered o c with
+      | some o =>
+        match Assembler.read s1 max ordered o with
         | (s2, .none) => (s2, s!"none {asmState s2}")
         | (s2, .chunk off bytes) => (s2, s!"ok {off} {bytes.length} {toHex bytes} {asmState s2}")
         | (_, .invalid) => (s1, "invalid-choice")
@@ -57,14 +57,12 @@ def asmRead (s : Asm) (max m : String) (obs : Option (Obs × RS)) : Asm × Strin
 def asm (s : Asm) : List String → Asm × String
   | ["insert", off, len, alloc] => asmInsert s off len alloc none
   | ["insert", off, len, alloc, obs] => asmInsert s off len alloc (some obs)
-  | ["read", max, m, "none", c] => match parseRanges c with
-    | some c => asmRead s max m (some (.none, c))
-    | none => (s, "bad-op")
+  | ["read", max, m, "none"] => asmRead s max m (some .none)
   | ["read", max, m, "err"] => asmRead s max m none
   | ["read", max, m, "panic"] => asmRead s max m none
-  | ["read", max, m, off, len, c] => match u64? off, u64? len, parseRanges c with
-    | some off, some len, some c => asmRead s max m (some (.chunk off len, c))
-    | _, _, _ => (s, "bad-op")
+  | ["read", max, m, off, len] => match u64? off, u64? len with
+    | some off, some len => asmRead s max m (some (.chunk off len))
+    | _, _ => (s, "bad-op")
   | ["ensure", m] => match parseMode m with
     | some ordered => match Assembler.ensureOrdering s ordered with
       | (s', true) => (s', s!"ok {asmState s'}")
